@@ -24,6 +24,8 @@ import wn  # noqa: E402
 from wn import similarity as S  # noqa: E402
 from vf import graph as G  # noqa: E402
 
+rt.native_float_in(S)
+
 TECHNIQUE = 'CrossHair symbolic execution of wn.similarity.path/wup over symbolic adjacency ' \
             'matrices; z3 queries over formulas translated from the AST of lch/res/jcn/lin'
 ASSUMPTIONS = [
